@@ -22,9 +22,10 @@ def afterPrefix (st : NodeSt) (_req : ReinitReq) (now : Time) (payloadOf : Tasks
 message that was accepted), the restarted node's handling of the same reinit message does nothing at all — at any later
 clock reading: no operation is registered, no key is written, and it reports success, so the offset moves past the message. -/
 theorem interrupted_reinit_is_abandoned (st : NodeSt) (req : ReinitReq) (now now' : Time) (payloadOf : Tasks.Msg → Bytes)
-    (pre : List InnerMsg) (hstored : (lookupS (afterPrefix st req now payloadOf pre).rounds req.dkgId).isSome = true) :
+    (pre : List InnerMsg) (hb : blankId req.dkgId = false)
+    (hstored : (lookupS (afterPrefix st req now payloadOf pre).rounds req.dkgId).isSome = true) :
     (reinitDKG (afterPrefix st req now payloadOf pre) req now' payloadOf).st = afterPrefix st req now payloadOf pre ∧
     (reinitDKG (afterPrefix st req now payloadOf pre) req now' payloadOf).out = .ok :=
-  C20Node.reinit_existing_round_noop _ req now' payloadOf hstored
+  C20Node.reinit_existing_round_noop _ req now' payloadOf hb hstored
 
 end Dc4bcVerif.Props.C13Reinit
